@@ -254,7 +254,13 @@ def check_C06(c):
     cases = c.tlc("MC_elem", "elem-arith", elem_consts(q, ["Arith"], Chain=True, ScalarTensors=True), ELEM_INV)
     c.replay("elem-arith", cases, dtypes="numeric,string,bool", pals=PALS_ARITH, rotate=8 if q else 0,
              extra=["-ops", "all", "-entries", "func,method"] + (["-palrotate", "3"] if q else []))
-    c.rep.rule = ("TLC enumerates the STRUCTURE of elementwise arithmetic: shapes of rank 0-4 x {tensor-tensor, tensor-scalar, scalar-tensor} "
+    # every (operator, operand order, element type) cell of the generated kernels without rotation: contiguous (plain kernels) and
+    # inner-slice (iterator kernels) operands of small shapes
+    kc = elem_consts(q, ["Arith"], laya=("C", "Col"), layb=("C", "Col"), mismatch=False, MinRank=1, MaxRank=2, MaxDim=2 if q else 3, HiRank=3)
+    cases = c.tlc("MC_elem", "cells-arith", kc, ELEM_INV)
+    c.replay("cells-arith", cases, dtypes="numeric", pals="ident,signed", extra=["-ops", "all"])
+    c.rep.rule = ("job cells-arith: every operator x form x numeric element type on small contiguous / inner-slice operands WITHOUT rotation; "
+                  "TLC enumerates the STRUCTURE of elementwise arithmetic: shapes of rank 0-4 x {tensor-tensor, tensor-scalar, scalar-tensor} "
                   "x an independent layout per tensor operand {contiguous, lazily transposed (reversal and cyclic), contiguous window, inner "
                   "slice, step slice, materialised} plus mismatched shapes, with the operator as the placeholder OP; the replayer substitutes "
                   "every operator {add, sub, mul, div, mod, pow, min, max}, every numeric element type (and string/bool, which must be refused), "
@@ -309,7 +315,12 @@ def check_C11(c):
     cases = c.tlc("MC_elem", "elem-cmp", k, ELEM_INV)
     c.replay("elem-cmp", cases, dtypes="all", pals="ident,signed,edge,nonfinite", rotate=8 if q else 0,
              extra=["-ops", "all", "-entries", "func,method"] + (["-palrotate", "2"] if q else []))
-    c.rep.rule = ("MC_elem with the six comparisons: shapes of rank 0-4 x {tensor-tensor, tensor-scalar, scalar-tensor} x independent operand "
+    kc = elem_consts(q, ["Cmp"], laya=("C", "Col"), layb=("C", "Col"), modes=("safe", "unsafe", "reuse"), mismatch=False,
+                     MinRank=1, MaxRank=2, MaxDim=2 if q else 3, HiRank=3)
+    cases = c.tlc("MC_elem", "cells-cmp", kc, ELEM_INV)
+    c.replay("cells-cmp", cases, dtypes="all", pals="signed", extra=["-ops", "all"])
+    c.rep.rule = ("job cells-cmp: every comparison x form x result kind x element type on small contiguous / inner-slice operands WITHOUT rotation; "
+                  "MC_elem with the six comparisons: shapes of rank 0-4 x {tensor-tensor, tensor-scalar, scalar-tensor} x independent operand "
                   "layouts x result kind {bool tensor, same-type 1/0, unsafe in place, reuse (bool and same-type)}; every ordered element type "
                   "(equality: every comparable type incl. bool, complex, string); palettes with equal pairs, NaN and extremes; each coordinate "
                   "is compared with the truth value of Go's comparison of the operands' elements in operand order")
@@ -322,7 +333,12 @@ def check_C12(c):
     cases = c.tlc("MC_elem", "elem-unary", k, ELEM_INV)
     c.replay("elem-unary", cases, dtypes="all", pals="ident,signed,edge,nonfinite,zerodiv", rotate=8 if q else 0,
              extra=["-ops", "all"] + (["-palrotate", "3"] if q else []))
-    c.rep.rule = ("MC_elem with the unary operations {neg, inv, square, cube, abs, sign, sqrt, cbrt, invsqrt, exp, log, log2, log10, tanh, "
+    kc = elem_consts(q, ["Unary"], forms=("TS",), laya=("C", "Col"), layb=("C",), modes=("safe", "unsafe", "reuse", "incr"), mismatch=False,
+                     MinRank=1, MaxRank=2, MaxDim=2 if q else 3, HiRank=3)
+    cases = c.tlc("MC_elem", "cells-unary", kc, ELEM_INV)
+    c.replay("cells-unary", cases, dtypes="all", pals="signed,zerodiv", extra=["-ops", "all"])
+    c.rep.rule = ("job cells-unary: every unary operation x mode x element type on small contiguous / inner-slice operands WITHOUT rotation; "
+                  "MC_elem with the unary operations {neg, inv, square, cube, abs, sign, sqrt, cbrt, invsqrt, exp, log, log2, log10, tanh, "
                   "clamp(lo,hi), Apply(fn)} x operand layouts x option modes; all element types (types outside an operation's domain must "
                   "be refused or are accepted either way, see Support); palettes with 0, negatives, extremes and non-finite values; exact "
                   "comparison for integer types and the algebraic functions, 8 ulp of Go's math/math32/cmplx routine otherwise")
